@@ -40,20 +40,23 @@ var heimdallType = map[string]string{
 	// jwtmd: a jwt authenticator that finds its key set through a metadata endpoint whose URL is a template over the
 	// issuer named by the (not yet verified) token; used in a family of chains of its own, never together with "jwt"
 	"jwtmd": "jwt",
-	"jwt":   "jwt", "basic": "basic_auth", "generic": "generic", "oauth2": "oauth2_introspection",
+	// jwtt: a jwt authenticator whose key set URL itself is a template over the issuer named by the token
+	"jwtt": "jwt",
+	"jwt":  "jwt", "basic": "basic_auth", "generic": "generic", "oauth2": "oauth2_introspection",
 	"anon": "anonymous", "unauth": "unauthorized",
 }
 
 // subject id each authenticator produces when it succeeds (pairwise distinct).
 var subjectOf = map[string]string{
 	"jwtmd": "jwt-user",
+	"jwtt":  "jwt-user",
 	"jwt":   "jwt-user", "basic": "alice", "generic": "generic-user", "oauth2": "oauth2-user", "anon": "anon-user",
 }
 
-var remoteOf = map[string]string{"jwtmd": hostJWKS, "jwt": hostJWKS, "generic": hostIDP, "oauth2": hostIntro}
+var remoteOf = map[string]string{"jwtmd": hostJWKS, "jwtt": hostJWKS, "jwt": hostJWKS, "generic": hostIDP, "oauth2": hostIntro}
 
 func flaggable(t string) bool {
-	return t == "jwtmd" || t == "jwt" || t == "basic" || t == "generic" || t == "oauth2"
+	return t == "jwtmd" || t == "jwtt" || t == "jwt" || t == "basic" || t == "generic" || t == "oauth2"
 }
 
 func typeOfID(id string) string { return strings.TrimSuffix(id, "_fb") }
@@ -62,6 +65,11 @@ func catalogue() *config.MechanismPrototypes {
 	base := map[string]config.MechanismConfig{
 		"jwt": {
 			"jwks_endpoint": map[string]any{"url": "http://" + hostJWKS + "/keys"},
+			"assertions":    map[string]any{"issuers": []any{issuer}, "audience": []any{audience}},
+			"cache_ttl":     "0s",
+		},
+		"jwtt": {
+			"jwks_endpoint": map[string]any{"url": "http://" + hostJWKS + "/keys/{{ .TokenIssuer }}"},
 			"assertions":    map[string]any{"issuers": []any{issuer}, "audience": []any{audience}},
 			"cache_ttl":     "0s",
 		},
@@ -94,7 +102,7 @@ func catalogue() *config.MechanismPrototypes {
 
 	p := &config.MechanismPrototypes{}
 
-	for _, t := range append([]string{"jwtmd"}, types...) {
+	for _, t := range append([]string{"jwtmd", "jwtt"}, types...) {
 		switch {
 		case flaggable(t):
 			plain := config.MechanismConfig{}
